@@ -137,7 +137,7 @@ class Renderer:
         if self.st.get("blank") and self.rng.chance(1, 5):
             r += "\n"
         if self.st.get("comments") and self.rng.chance(1, 6):
-            r += self.rng.choice(["-- c\n", "--[[ block\n comment ]]\n", "--[==[ x ]==]\n", "--\n"])
+            r += self.rng.choice(["-- c\n", "--[[ block\n comment ]]\n", "--[==[ x ]==]\n", "--\n", "--[[\nlong\n]]\n", "--[=[\n]=]\n"])
         return r + ("" if self.st.get("compact") else "  " * ind)
 
     # -------------------------------------------------------------- literals
@@ -145,10 +145,13 @@ class Renderer:
         mode = self.st.get("strq", "d")
         if mode == "mix":
             mode = self.rng.choice(["d", "s", "l", "x"])
-        printable = all(32 <= c < 127 for c in b)
+        # multi-line long strings only where no error position can depend on the layout
+        printable = all(32 <= c < 127 or (c == 10 and getattr(self, "ml_ok", False)) for c in b)
         if mode == "l" and printable and b and b"]" not in b:
             eq = "=" * self.rng.below(3)
-            return "[%s[%s]%s]" % (eq, b.decode("latin1"), eq)
+            # a line end directly after the opening bracket is skipped; raw line ends inside are \n
+            lead = "\n" if (b[:1] == b"\n" or (getattr(self, "ml_ok", False) and self.rng.chance(1, 2))) else ""
+            return "[%s[%s%s]%s]" % (eq, lead, b.decode("latin1"), eq)
         q = "'" if mode == "s" else '"'
         r = [q]
         for i, c in enumerate(b):
@@ -294,7 +297,9 @@ class Renderer:
             names = ", ".join(n + ("" if a == "-" else " <%s>" % a) for n, a in s.a[0])
             t = "local " + names
             if s.a[1]:
+                self.ml_ok = all(e.k == "str" for e in s.a[1])
                 t += " = " + self.explist(s.a[1], ind)
+                self.ml_ok = False
         elif k == "assign":
             t = ", ".join(self.exp(x, 0, ind) for x in s.a[0]) + " = " + self.explist(s.a[1], ind)
         elif k == "scall":
@@ -392,11 +397,19 @@ STYLES = [
 ]
 
 
-def render(block, style, rng):
-    """Lua source for the block; sets .line/.armlines/.until_line on the statements"""
+EOLS = ["\n", "\r\n", "\r", "\n\r"]
+
+
+def render(block, style, rng, eol="\n"):
+    """Lua source for the block; sets .line/.armlines/.until_line on the statements.
+    eol: the line end used in the text (LF, CRLF, CR, LFCR all count as one line end in Lua;
+    inside long strings they denote \n)"""
     if isinstance(style, int):
         style = STYLES[style % len(STYLES)]
-    return Renderer(style, rng).render(block)
+    text = Renderer(style, rng).render(block)
+    if eol != "\n":
+        text = text.replace("\n", eol)
+    return text
 
 
 # =====================================================================================
@@ -945,7 +958,7 @@ class ProgramGen:
             (4, self.s_callstat), (3, self.s_closure_loop), (4, self.s_seq), (4, self.s_rec), (3, self.s_obj),
             (4, self.s_meta), (5, self.s_pcall), (2, self.s_goto), (4, self.s_varargs), (2, self.s_tailrec),
             (2, self.s_multi), (2, self.s_break), (2, self.s_forfloat), (2, self.s_xpcall), (2, self.s_method_str),
-            (2, self.s_iter_closure), (2, self.s_const), (1, self.s_return_early), (4, self.s_close), (5, self.s_co), (4, self.s_assign_alias), (4, self.s_jump_fresh),
+            (2, self.s_iter_closure), (2, self.s_const), (1, self.s_return_early), (4, self.s_close), (5, self.s_co), (4, self.s_assign_alias), (4, self.s_jump_fresh), (4, self.s_forin_false), (5, self.s_excess), (2, self.s_longstr),
         ]
         tot = sum(w for w, _ in table)
         x = r.below(tot)
@@ -1903,6 +1916,99 @@ class ProgramGen:
                                                                            For(i, Var(w), Int(9), None, [push(i), Break()])])]
         return [Local([fs], [Tab()])] + body + use
 
+
+    def s_forin_false(self):
+        """generic for: the loop ends when the first value is nil — and only then: false is an
+        ordinary control value (manual 3.3.5)"""
+        r = self.rng
+        if self.pure or self.block_depth > 2:
+            return None
+        k = r.below(7)
+        self.feat("forin-false:%d" % k)
+        em = lambda *a: self.emit_stat(list(a))
+        t, ix, it, v, w = self.fresh("t"), self.fresh("ix"), self.fresh("it"), self.fresh("e"), self.fresh("e")
+        vals = [r.choice([FalseE(), TrueE(), FalseE(), Int(r.below(5)), Str("s"), FalseE()]) for _ in range(2 + r.below(4))]
+        body = [em(Str("it"), Var(v), Var(w))] + (self.loop_body(1, [V(v, "any", mutable=False)]) if r.chance(1, 3) else [])
+        if k == 0:
+            # closure iterator walking a list of booleans / mixed values
+            return [Local([t, ix], [Tab(*[FPos(x) for x in vals]), Int(0)]),
+                    ForIn([v, w], [Fn([], False, [Assign([Var(ix)], [Bin("add", Var(ix), Int(1))]), Return(Ix(Var(t), Var(ix)), Var(ix))])], body),
+                    em(Str("after"), Var(ix))]
+        if k == 1:
+            # stateless iterator whose control value goes nil -> false -> true -> 0 -> nil
+            f = Fn(["s", "c"], False, [If([(Bin("eq", Var("c"), Nil()), [Return(FalseE(), Str("first"))]),
+                                           (Bin("eq", Var("c"), FalseE()), [Return(TrueE(), Str("second"))]),
+                                           (Bin("eq", Var("c"), TrueE()), [Return(Int(0), Str("third"))])], None)])
+            return [LocalFn(it, f), ForIn([v, w], [Var(it), Nil(), Nil()], body), em(Str("after"))]
+        if k == 2:
+            # next over a table whose only key is false
+            return [ForIn([v, w], [Var("next"), Tab(FKey(FalseE(), self.exp("int", 1, False, True)))], body), em(Str("after"))]
+        if k == 3:
+            return [ForIn([v, w], [Call(Var("pairs"), Tab(FKey(FalseE(), Str("x"))))], body), em(Str("after"))]
+        if k == 4:
+            # initial control value false, iterator flips it
+            f = Fn(["s", "c"], False, [If([(Bin("eq", Var("c"), FalseE()), [Return(TrueE(), Var("s"))]), (Bin("eq", Var("c"), TrueE()), [Return(FalseE() if False else Nil())])], None)])
+            return [LocalFn(it, f), ForIn([v, w], [Var(it), Str("st"), FalseE()], body), em(Str("after"))]
+        if k == 5:
+            # closure returning false, nil, false ... the nil ends it
+            return [Local([ix], [Int(0)]),
+                    ForIn([v, w], [Fn([], False, [Assign([Var(ix)], [Bin("add", Var(ix), Int(1))]),
+                                                  If([(Bin("le", Var(ix), Int(2)), [Return(FalseE(), Var(ix))])], None)])], body),
+                    em(Str("after"), Var(ix))]
+        # coroutine.wrap generator yielding false values
+        g = self.fresh("gen")
+        return [Local([g], [Call(Fld(Var("coroutine"), "wrap"), Fn([], False, [SCall(Call(Fld(Var("coroutine"), "yield"), FalseE(), Int(1))),
+                                                                               SCall(Call(Fld(Var("coroutine"), "yield"), FalseE(), Int(2)))]))]),
+                ForIn([v, w], [Var(g)], body), em(Str("after"))]
+
+    def s_excess(self):
+        """more expressions than targets: every expression is evaluated, the surplus values are
+        thrown away (manual 3.3.3, 3.4.12); the single side effect sits in a surplus position"""
+        r = self.rng
+        if self.pure or self.block_depth > 3 or self.pf.get("no_excess"):
+            return None
+        k = r.below(9)
+        self.feat("excess-exps:%d" % k)
+        em = lambda *a: self.emit_stat(list(a))
+        a, b, f, t = self.fresh("x"), self.fresh("x"), self.fresh("f"), self.fresh("t")
+        e1, e2 = self.exp("int", 1, False, True), self.exp(r.choice(["int", "str"]), 1, False, True)
+        tag = Int(100 + r.below(100))
+        eff = Call(Var("emit"), Str("surplus"), tag)
+        mk = LocalFn(f, Fn([], True, [self.emit_stat([Str("f"), Call(Var("select"), Str("#"), Dots())]), Return(Int(1), Int(2), Dots())]))
+        if k == 0:
+            return [Local([a], [e1, eff]), em(Var(a))]
+        if k == 1:
+            return [Local([a, b], [e1, e2, eff, Int(7)]), em(Var(a), Var(b))]
+        if k == 2:
+            return [Local([a], [Int(0)]), Assign([Var(a)], [e1, eff]), em(Var(a))]
+        if k == 3:
+            return [Local([a, t], [Int(0), Tab()]), Assign([Var(a), Ix(Var(t), Int(1))], [e1, e2, Int(3), eff]), em(Var(a), Ix(Var(t), Int(1)))]
+        if k == 4:
+            # a multi-value call in the last surplus position
+            return [mk, Local([a], [e1, Call(Var(f), Int(9), Int(8))]), em(Var(a))]
+        if k == 5:
+            return [mk, Local([a], [Int(0)]), Assign([Var(a)], [e1, Int(5), Call(Var(f))]), em(Var(a))]
+        if k == 6:
+            # vararg in the last surplus position, effect before it
+            return [LocalFn(f, Fn([], True, [Local([a], [e1, eff, Dots()]), Return(Var(a))])), em(Call(Var(f), Int(1), Int(2)))]
+        if k == 7:
+            # generic for with more than four expressions in its list
+            v, w = self.fresh("e"), self.fresh("e")
+            return [ForIn([v, w], [Var("next"), Tab(FNamed("k", e1)), Nil(), Nil(), eff], [em(Var(v), Var(w))])]
+        # surplus parenthesised call and a first expression that is itself a call
+        return [mk, Local([a], [Call(Var(f)), Par(eff)]), em(Var(a))]
+
+    def s_longstr(self):
+        """strings with line ends inside (long-bracket spelling in some renderings)"""
+        r = self.rng
+        if not self.pf["strings"]:
+            return None
+        self.feat("string-with-newlines")
+        b = r.choice([b"a\nb", b"\nx", b"line1\nline2\n", b"\n", b"\n\ny", b"tail\n"])
+        x = self.fresh("v")
+        self.declare(V(x, "str", mutable=False))
+        return [Local([x], [Str(b)]), self.emit_stat([Var(x), Un("len", Var(x)), Meth(Var(x), "byte", Int(1), Int(-1))])]
+
     def s_const(self):
         if self.pf.get("ref53"):
             return None
@@ -2090,7 +2196,29 @@ def rw_forin_copy(block):
     return map_nodes(block, f), hit[0]
 
 
-REWRITES = {"C01-paren-vararg": rw_paren_dots, "C01-forin-shared-cell": rw_forin_copy}
+def rw_excess(block):
+    """local a = e1, e2   ->  local a, x_ = e1, e2        (one more target per surplus expression)
+       a = e1, e2         ->  do local x_; a, x_ = e1, e2 end"""
+    hit = [0]
+
+    def f(n):
+        if n.k == "local" and len(n.a[1]) > len(n.a[0]) and n.a[0]:
+            hit[0] += 1
+            extra = ["xs%d_" % i for i in range(len(n.a[1]) - len(n.a[0]))]
+            return N("local", list(n.a[0]) + [(x, "-") for x in extra], n.a[1])
+        if n.k == "assign" and len(n.a[1]) > len(n.a[0]):
+            hit[0] += 1
+            extra = ["xs%d_" % i for i in range(len(n.a[1]) - len(n.a[0]))]
+            return Do([Local(extra, []), Assign(list(n.a[0]) + [Var(x) for x in extra], n.a[1])])
+        if n.k == "forin" and len(n.a[1]) > 4:
+            hit[0] += 1
+            tmp = ["xs%d_" % i for i in range(len(n.a[1]))]
+            return Do([Local(tmp, n.a[1]), ForIn(n.a[0], [Var(x) for x in tmp[:4]], n.a[2])])
+        return n
+    return map_nodes(block, f), hit[0]
+
+
+REWRITES = {"C01-paren-vararg": rw_paren_dots, "C01-forin-shared-cell": rw_forin_copy, "C01-excess-expressions-dropped": rw_excess}
 
 
 def count_kinds(x, acc):
